@@ -146,8 +146,8 @@ def genOp (maxObjs : Nat) : G Unit := do
     if let some o ← pickObj then
       match ← pickCtx with
       | some (some c) =>
-        if !(hdesc s o.2).contains c.2 then emit s!"steal {c.1} {o.1}"
-      | _ => emit s!"steal - {o.1}"
+        if !(hdesc s o.2).contains c.2 then emit s!"{← pick ["steal", "move"]} {c.1} {o.1}"
+      | _ => emit s!"{← pick ["steal", "move"]} - {o.1}"
   else if k < 73 then
     -- reparent old new o: old mostly a real holder
     if let some o ← pickObj then
@@ -285,7 +285,7 @@ def genC19Op (lims : List Nat) (maxObjs : Nat) : G Unit := do
     -- steal in / out
     let o ← pick ls
     let c ← pick ls
-    if !(hdesc s o.2).contains c.2 then emit s!"steal {c.1} {o.1}"
+    if !(hdesc s o.2).contains c.2 then emit s!"{← pick ["steal", "steal", "move"]} {c.1} {o.1}"
   else if k < 68 then
     let o ← pick ls
     emit s!"free {o.1}"
@@ -403,7 +403,8 @@ def exhAlphabet (d : DSt) : List String :=
       let acyc := match c.2 with
         | some ci => !hd.contains ci
         | none => true
-      [s!"unlink {c.1} {o.1}"] ++ (if acyc then [s!"ref {c.1} {o.1}", s!"steal {c.1} {o.1}"] else [])
+      [s!"unlink {c.1} {o.1}"] ++
+        (if acyc then [s!"ref {c.1} {o.1}", (if o.1 % 2 == 1 then s!"move {c.1} {o.1}" else s!"steal {c.1} {o.1}")] else [])
 
 partial def exhDfs (out : IO.FS.Stream) (depth : Nat) (d : DSt) (pref : Array String) : IO Unit := do
   if depth == 0 then
